@@ -167,6 +167,26 @@ func LoadKnown(path string) (*KnownFile, error) {
 
 // Finish prints KNOWN-FINDING / VIOLATION lines, writes evidence and replay files and
 // returns the process exit code.
+// PrintBad prints the obligations that are neither discharged nor listed known findings in
+// the format of Finish and returns their number; it writes nothing (sweep mode).
+func (c *Ctx) PrintBad(known *KnownFile) int {
+	knownSet := map[string]bool{}
+	for _, k := range known.Findings {
+		if k.Property == c.Prop {
+			knownSet[k.Key] = true
+		}
+	}
+	n := 0
+	for _, o := range c.Obls {
+		if o.Status == OK || (o.Status == Violation && knownSet[o.Key]) {
+			continue
+		}
+		n++
+		fmt.Printf("%s: %s %s at %s: %s\n", strings.ToUpper(string(o.Status)), c.Prop, o.Key, o.Pos, oneLine(o.Detail))
+	}
+	return n
+}
+
 func (c *Ctx) Finish(verifDir string, known *KnownFile, start time.Time, seed int64) int {
 	evDir := filepath.Join(verifDir, "evidence")
 	os.MkdirAll(evDir, 0o755)
